@@ -274,7 +274,13 @@ def run(ctx):
         if v.key not in seen:
             seen.add(v.key)
             uniq.append(v)
-    uniq.sort(key=lambda v: (len(v.key), v.key))
+    # the known class last, so that anything else is among the first violations printed
+    uniq.sort(key=lambda v: (v.key.startswith("trailing-empty-numeric:"), len(v.key), v.key))
+    by_class = {}
+    for v in uniq:
+        c = v.key.split(":")[0].split(" ")[0]
+        by_class[c] = by_class.get(c, 0) + 1
+    ctx.log("violations by class: %s" % (by_class or "none"))
 
     cov = {
         "evaluations": evals + lst["pairs"] + checked + cons["evaluations"],
@@ -299,6 +305,7 @@ def run(ctx):
         "tlc_constants": {"Alphabet": ALPHABET, "MaxLen_laws": 2, "MaxLen_table": ctx.pick(3, 4)},
         "tlc_table_runs": len(tjobs),
         "consumers": cons,
+        "violations_by_class": by_class,
         "binding_canaries": "corrupted table entry and corrupted observation both rejected",
     }
     return Result(level="exploration", coverage=cov,
